@@ -158,6 +158,9 @@ def havoc_value(eng, v, seen=None):
                 havoc_value(eng, x, seen)
     elif isinstance(v, DictListRef):
         havoc_value(eng, v.d, seen)
+    elif type(v).__name__ == "DFrame":  # pandas frame model: every column's contents (row count and column set kept)
+        for c in v.cols.values():
+            havoc_value(eng, c, seen)
 
 
 def _callee_mutates_self(eng, obj, mname):
@@ -304,6 +307,8 @@ def exec_while(eng, s, fr):
                 return
         raise Unsupported("unroll bound exceeded")
     pre = f"{_fn_label(eng, fr)}/loop{o}"
+    if _yield_sink(fr, s.body) is not None:
+        raise Unsupported(f"while loop #{o} in {_fn_label(eng, fr)} yields inside an invariant-cut loop")
     old_vars = eng.old_vars_of(fr)
     entry_vars = snapshot(_visible(fr))
     check_invs(eng, spec, fr, old_vars, entry_vars, pre, "entry")
@@ -345,6 +350,27 @@ def _eval_term(eng, text, fr, old_vars, entry_vars):
         eng.spec_mode -= 1
 
 
+class LoopYields:
+    """Stands, in the eagerly collected output of a generator, for everything an invariant-cut loop yields:
+    `count` iterations, each yielding exactly the items its `yields` clauses (proved per iteration) describe."""
+
+    def __init__(self, ordinal, count, labels):
+        self.ordinal, self.count, self.labels = ordinal, count, labels
+
+    def __repr__(self):
+        return f"LoopYields<loop{self.ordinal} x {self.count}>"
+
+
+def _yield_sink(fr, body):
+    """the enclosing generator's output list if the loop body yields, else None"""
+    if not any(isinstance(x, (ast.Yield, ast.YieldFrom)) for x in _walk_no_defs(body)):
+        return None
+    f = fr
+    while f is not None and not hasattr(f, "yield_sink"):
+        f = f.parent
+    return f.yield_sink if f is not None else None
+
+
 def exec_for(eng, s, fr):
     spec, o = loop_spec(eng, fr, s)
     seqv = eng.ev(s.iter, fr)
@@ -379,17 +405,31 @@ def exec_for(eng, s, fr):
     for t in tnames:
         fr.vars.pop(t, None)
     check_invs(eng, spec, fr, old_vars, entry_vars, pre, "assume", assume_only=True)
+    # a cut loop inside a generator: the values yielded by the loop are described per iteration by the loop
+    # contract's `yields` clauses [(label, fn(E, vars, new_items, k) -> Bool)]; without them the output would
+    # silently lose the loop's yields on the exit path, so that is refused
+    sink = _yield_sink(fr, s.body)
+    if sink is not None and not spec.get("yields"):
+        raise Unsupported(f"for loop #{o} in {_fn_label(eng, fr)} yields inside an invariant-cut loop: give `yields` clauses in the loop contract")
     if eng.branch(eng.sbool(k.z < nz)):
         eng.assign(s.target, getter(k), fr)
+        m0 = len(sink) if sink is not None else 0
         try:
             eng.exec_block(s.body, fr)
         except ContinueSig:
             pass
         except BreakSig:
+            if sink is not None:
+                raise Unsupported("break inside a yielding invariant-cut loop")
             return
+        if sink is not None:
+            for lab, fn in spec["yields"]:
+                eng.prove(f"{pre}/yields/{lab}", fn(eng, _visible(fr), list(sink[m0:]), k), "yields")
         fr.vars[kname] = eng.snum(k.z + 1, "int")
         check_invs(eng, spec, fr, old_vars, entry_vars, pre, "preserved")
         raise PathEnd()
+    if sink is not None:
+        sink.append(LoopYields(o, n, [lab for lab, _ in spec["yields"]]))
     if isinstance(seqv, Iter):
         seqv.consumed = True
     eng.exec_block(s.orelse, fr)
